@@ -7,6 +7,7 @@ package classic
 
 import (
 	"fmt"
+	clgenesis "github.com/osmosis-labs/osmosis/v31/x/concentrated-liquidity/types/genesis"
 	"math/big"
 	"os"
 	"sort"
@@ -138,6 +139,9 @@ func (Engine) Generate(r *simcore.RNG, tier string, idx int) *simcore.Plan {
 	regime := int64(r.Weighted([]int{30, 35, 35}))
 	p.Config["regime"] = regime
 	p.Config["takerfee"] = int64(r.Intn(len(takerFees)))
+	if r.Chance(0.3) {
+		p.Config["wl"] = 1 // account 0 may create pools without the creation fee
+	}
 	faults := idx%2 == 1
 	if faults {
 		p.Config["faults"] = 1
@@ -567,6 +571,14 @@ func (Engine) Execute(run *simcore.Run) {
 		cdc.MustUnmarshalJSON(gs[minttypes.ModuleName], &mg)
 		mg.Params.MintingRewardsDistributionStartEpoch = 1 << 40
 		gs[minttypes.ModuleName] = cdc.MustMarshalJSON(&mg)
+		if p.Cfg("wl", 0) == 1 {
+			// account 0 is on the unrestricted pool-creator white list (a concentrated-liquidity parameter that
+			// poolmanager consults for every pool type): it creates pools without paying the creation fee
+			var cg clgenesis.GenesisState
+			cdc.MustUnmarshalJSON(gs["concentratedliquidity"], &cg)
+			cg.Params.UnrestrictedPoolCreatorWhitelist = []string{sdk.AccAddress(simchain.AcctKey(0).PubKey().Address()).String()}
+			gs["concentratedliquidity"] = cdc.MustMarshalJSON(&cg)
+		}
 		var pg pmtypes.GenesisState
 		cdc.MustUnmarshalJSON(gs[pmtypes.ModuleName], &pg)
 		pg.Params.TakerFeeParams.DefaultTakerFee = osmomath.MustNewDecFromStr(tf0)
